@@ -305,7 +305,8 @@ def _neighbour_classes():
     standard ones, but decoding to nothing"""
     if not _NEIGHBOUR_CLASSES:
         from pymodbus.factory import ClientDecoder
-        for cls in list(getattr(ClientDecoder, '_ClientDecoder__function_table')) + list(getattr(ClientDecoder, '_ClientDecoder__sub_function_table')):
+        from harness import framers as _fr
+        for cls in _fr.standard_classes(ClientDecoder):
             ns = dict(decode=lambda self, data: setattr(self, 'neighbour_decoded', True),
                       __doc__='neighbour variant')
             _NEIGHBOUR_CLASSES.append(type('Neighbour' + cls.__name__, (cls,), ns))
